@@ -14,7 +14,9 @@ parenthesised expression and the void literal `()`.
 Ported left denotations: the binary operators (`defineExpr(binaryExpr)`; `<` as comparison only — the
 speculative type-argument parse is outside the port; `>` with the look-ahead for an adjacent second
 `>`), `?:`, `as` / `as?` / `as!`, postfix `!`, `.` / `?.`, `[`.
-Not ported (the port answers `none`): invocation, arrays, dictionaries, strings, paths, `create`,
+Invocation: `(` as left denotation with `parseArgumentListRemainder` / `parseArgument` (labels; no type
+arguments).
+Not ported (the port answers `none`): type arguments, arrays, dictionaries, strings, paths, `create`,
 `destroy`, `attach`, function expressions, type arguments.
 -/
 namespace Verif.Model.Front.Syn
@@ -161,10 +163,33 @@ def nudBody (pe : Nat → List Tok → Option (Expr × List Tok)) (ts : List Tok
     else none
   | _ => none
 
+/-- after an argument: `,` and the remaining arguments, or the closing parenthesis -/
+def argTail (pas : List Tok → Option (Expr × List Tok)) (label : String) (e : Expr) (r : List Tok) :
+    Option (Expr × List Tok) :=
+  match expect "," r with
+  | some r' => (pas r').map fun (rest, r'') => (.argsCons label e rest, r'')
+  | none => (expect ")" r).map fun r' => (.argsCons label e .argsNil, r')
+
+/-- `parseArgumentListRemainder` (after the `(` or after a `,`) with `parseArgument`: an expression; if a
+    `:` follows, the expression must be an identifier and is the label.  `pe` = `parseExpression`, `pas` =
+    this function at the smaller fuel. -/
+def argsBody (pe : Nat → List Tok → Option (Expr × List Tok)) (pas : List Tok → Option (Expr × List Tok))
+    (ts : List Tok) : Option (Expr × List Tok) :=
+  match expect ")" ts with
+  | some rest => some (.argsNil, rest)
+  | none =>
+    (pe 0 ts).bind fun (e, r) =>
+      match expect ":" r with
+      | some r' =>
+        (match e with
+         | .ident n => (pe 0 r').bind fun (e2, r2) => argTail pas n e2 r2
+         | _ => none)
+      | none => argTail pas "" e r
+
 /-- `applyExprLeftDenotation` for the token at the head of `ts`; `pe` = `parseExpression`,
-    `pa` = `parseTypeAnnotation` -/
+    `pa` = `parseTypeAnnotation`, `pas` = `parseArgumentListRemainder` -/
 def ledBody (pe : Nat → List Tok → Option (Expr × List Tok)) (pa : List Tok → Option (Bool × Ty × List Tok))
-    (left : Expr) (ts : List Tok) : Option (Expr × List Tok) :=
+    (pas : List Tok → Option (Expr × List Tok)) (left : Expr) (ts : List Tok) : Option (Expr × List Tok) :=
   match ts with
   | ⟨.ident, n, _⟩ :: rest =>
     if n == "as" then (pa rest).map (fun (res, t, r) => (.cast .cast left res t, r)) else none
@@ -181,7 +206,7 @@ def ledBody (pe : Nat → List Tok → Option (Expr × List Tok)) (pa : List Tok
       | _ => none
     else if s == "[" then
       (pe 0 rest).bind fun (i, r) => (expect "]" r).map fun rest' => (.index left i, rest')
-    else if s == "(" then none
+    else if s == "(" then (pas rest).map fun (args, r) => (.invoke left args, r)
     else if s == ">" then
       match adjGt rest with
       | some rest' => (pe BinOp.shr.rbp rest').map (fun (e, r) => (.binary .shr left e, r))
@@ -214,7 +239,11 @@ def loop : Nat → Nat → Expr → List Tok → Option (Expr × List Tok)
 /-- `applyExprLeftDenotation` -/
 def led : Nat → Expr → List Tok → Option (Expr × List Tok)
   | 0, _, _ => none
-  | fuel + 1, left, ts => ledBody (parseExpr fuel) (parseAnn fuel) left ts
+  | fuel + 1, left, ts => ledBody (parseExpr fuel) (parseAnn fuel) (parseArgs fuel) left ts
+/-- `parseArgumentListRemainder` -/
+def parseArgs : Nat → List Tok → Option (Expr × List Tok)
+  | 0, _ => none
+  | fuel + 1, ts => argsBody (parseExpr fuel) (parseArgs fuel) ts
 end
 
 /-- parse a complete token list as one expression.  The fuel is an artefact of the port (the Go parser
